@@ -171,12 +171,83 @@ def evaluate(case, verbose=False):
         for r in new_w:
             print('   ', r['type'], r['positions'], r['text'])
 
-    def warned(ann, need_pos=True):
+    def warned(ann, need_pos=True, line=None):
+        line = site_line if line is None else line
         for r in new_w:
             if MD.names_annotation(ann, r['text']):
-                if not need_pos or any(p[1] == site_line and p[0].endswith('foo.c') for p in r['positions']):
+                if not need_pos or any(p[1] == line and p[0].endswith('foo.c') for p in r['positions']):
                     return True
         return False
+
+    def check_el(label, B, A, ael, exp, line):
+        """compare one annotated element (the site, or the length parameter) with its expectation"""
+        def resolve(x):
+            if x is MD.U:
+                return None
+            if x[0] == 'M':
+                return x
+            if x[0] == 'C':
+                return resolve(x[3] if warned(x[1], True, line) else x[2])
+            if x[0] == 'DEFAULT-OUT':
+                return ('M', 'none' if A['attrs'].get('caller-allocates') == '1' else 'full')
+            raise AssertionError(x)
+
+        mine = []
+        for k in sorted(set(MD.SITE_ATTRS) | set(A['attrs']) | set(B['attrs'])):
+            if k in exp.attrs:
+                x = resolve(exp.attrs[k])
+            else:
+                x = ('M', B['attrs'].get(k))         # not an annotation-controlled attribute: frame
+            if x is None:
+                stat['unspec'] += 1
+                continue
+            stat['must'] += 1
+            if A['attrs'].get(k) != x[1]:
+                mine.append(('attr:%s' % k, '%s: %s=%r, expected %r (baseline %r)' % (
+                    label, k, A['attrs'].get(k), x[1], B['attrs'].get(k)),
+                    mclass(A['attrs'].get(k), x[1], B['attrs'].get(k))))
+        # allow-none is the deprecated mirror of nullable/optional: one report per failure
+        modes = set((v[0], v[2]) for v in mine)
+        mine = [v for v in mine if not (v[0] == 'attr:allow-none' and
+                                        (('attr:nullable', v[2]) in modes or ('attr:optional', v[2]) in modes))]
+        viol.extend(mine)
+        x = resolve(exp.attributes)
+        if x is not None and sorted(A['attributes']) != sorted(x[1]):
+            viol.append(('attributes', '%s: <attribute> children %r, expected %r' % (label, A['attributes'], x[1])))
+        if A['doc'] != B['doc']:
+            viol.append(('frame', '%s: <doc> of the site changed: %r -> %r' % (label, B['doc'], A['doc'])))
+        extra = [k.tag for k in ael.kids if k.tag not in ('attribute', 'doc', 'type', 'array', 'varargs')]
+        if extra:
+            viol.append(('frame', '%s: unexpected children %r' % (label, extra)))
+        if exp.type is MD.U:
+            stat['unspec'] += 1
+        else:
+            stat['must'] += 1
+            r = MD.match(exp.type, A['type'])
+            if r:
+                viol.append(('type', '%s: %s; got %s (baseline %s)' % (label, r, json.dumps(A['type']),
+                                                                      json.dumps(B['type'])),
+                             'ignored' if A['type'] == B['type'] else 'wrong'))
+        return resolve
+
+    def check_warn(exp, line):
+        for a, w in exp.warn.items():
+            if w == 'M':
+                stat['must'] += 1
+                if not warned(a, exp.warn_pos.get(a, True), line):
+                    viol.append(('warn-missing:%s' % G.ann_name(a),
+                                 'annotation (%s) is not valid here but no warning naming it was logged at '
+                                 'line %d' % (a, line)))
+            elif w == 'N':
+                stat['must'] += 1
+                for r in new_w:
+                    if ('invalid "%s" annotation' % G.ann_name(a)) in r['text'] and 'annotation option' not in r['text'] \
+                            and any(p[1] == line for p in r['positions']):
+                        viol.append(('warn-spurious:%s' % G.ann_name(a),
+                                     'valid annotation (%s) reported: %s' % (a, r['text'])))
+                        break
+            else:
+                stat['unspec'] += 1
 
     # --- prediction needs the baseline site; take the primary (first) located callable
     blocs = locate(broot, case)
@@ -248,54 +319,26 @@ def evaluate(case, verbose=False):
                          'scan did not fail' % label))
         stat['nontrivial'] = stat['nontrivial'] or exp.nontrivial
 
-        def resolve(x):
-            if x is MD.U:
-                return None
-            if x[0] == 'M':
-                return x
-            if x[0] == 'C':
-                return resolve(x[3] if warned(x[1]) else x[2])
-            if x[0] == 'DEFAULT-OUT':
-                return ('M', 'none' if A['attrs'].get('caller-allocates') == '1' else 'full')
-            raise AssertionError(x)
-
-        # site attributes
-        for k in sorted(set(MD.SITE_ATTRS) | set(A['attrs']) | set(B['attrs'])):
-            if k in exp.attrs:
-                x = resolve(exp.attrs[k])
+        resolve = check_el(label, B, A, asite, exp, site_line)
+        # annotations written on the length parameter itself: judged with the direction n ends up with
+        nann = G.n_anns(case)
+        if nann:
+            bn, an = param_named(bcall, 'n'), param_named(acall, 'n')
+            if bn is None or an is None:
+                viol.append(('frame', '%s: length parameter disappeared' % label))
             else:
-                x = ('M', B['attrs'].get(k))         # not an annotation-controlled attribute: frame
-            if x is None:
-                stat['unspec'] += 1
-                continue
-            stat['must'] += 1
-            if A['attrs'].get(k) != x[1]:
-                viol.append(('attr:%s' % k, '%s: %s=%r, expected %r (baseline %r)' % (
-                    label, k, A['attrs'].get(k), x[1], B['attrs'].get(k)),
-                    mclass(A['attrs'].get(k), x[1], B['attrs'].get(k))))
-        # allow-none is the deprecated mirror of nullable/optional: one report per failure
-        modes = set((v[0], v[2]) for v in viol if len(v) > 2 and v[1].startswith(label + ':'))
-        viol[:] = [v for v in viol if not (v[0] == 'attr:allow-none' and v[1].startswith(label + ':') and
-                                           (('attr:nullable', v[2]) in modes or ('attr:optional', v[2]) in modes))]
-        # <attribute> children, <doc>
-        x = resolve(exp.attributes)
-        if x is not None and sorted(A['attributes']) != sorted(x[1]):
-            viol.append(('attributes', '%s: <attribute> children %r, expected %r' % (label, A['attributes'], x[1])))
-        if A['doc'] != B['doc']:
-            viol.append(('frame', '%s: <doc> of the site changed: %r -> %r' % (label, B['doc'], A['doc'])))
-        extra = [k.tag for k in asite.kids if k.tag not in ('attribute', 'doc', 'type', 'array', 'varargs')]
-        if extra:
-            viol.append(('frame', '%s: unexpected children %r' % (label, extra)))
-        # type
-        if exp.type is MD.U:
-            stat['unspec'] += 1
-        else:
-            stat['must'] += 1
-            r = MD.match(exp.type, A['type'])
-            if r:
-                viol.append(('type', '%s: %s; got %s (baseline %s)' % (label, r, json.dumps(A['type']),
-                                                                      json.dumps(B['type'])),
-                             'ignored' if A['type'] == B['type'] else 'wrong'))
+                inherit = None
+                if any(a.startswith('array') and 'length=n' in a for a in case['anns']):
+                    arr_v = exp.eff_dir in ('in', 'out', 'inout') and \
+                        exp.others.get('n', {}).get('direction', ('M', None)) is not MD.U
+                    inherit = exp.eff_dir if arr_v else 'U'
+                ncase = dict(case, kind='intp', site='p', anns=nann)
+                nexp = MD.predict(ncase, reading(bn), index_of, label, inherit_dir=inherit)
+                stat['nontrivial'] = stat['nontrivial'] or nexp.nontrivial
+                loose[id(bn)] = '*'
+                check_el(label + '/n', reading(bn), reading(an), an, nexp, where['n'])
+                if first:
+                    check_warn(nexp, where['n'])
         # parameters named by length / closure / destroy
         for name, eo in exp.others.items():
             bp, ap = param_named(bcall, name), param_named(acall, name)
@@ -316,23 +359,7 @@ def evaluate(case, verbose=False):
                         label, name, k, ap.get(k), x[1]), mclass(ap.get(k), x[1], bp.get(k))))
         if first:
             first = False
-            # warnings, once per case
-            for a, w in exp.warn.items():
-                if w == 'M':
-                    stat['must'] += 1
-                    if not warned(a, exp.warn_pos.get(a, True)):
-                        viol.append(('warn-missing:%s' % G.ann_name(a),
-                                     'annotation (%s) is not valid here but no warning naming it was logged at '
-                                     'line %d' % (a, site_line)))
-                elif w == 'N':
-                    stat['must'] += 1
-                    for r in new_w:
-                        if ('invalid "%s" annotation' % G.ann_name(a)) in r['text'] and 'option' not in r['text']:
-                            viol.append(('warn-spurious:%s' % G.ann_name(a),
-                                         'valid annotation (%s) reported: %s' % (a, r['text'])))
-                            break
-                else:
-                    stat['unspec'] += 1
+            check_warn(exp, site_line)      # warnings, once per case
         outcome.append((label, tuple(sorted(A['attrs'].items())), json.dumps(A['type']), tuple(A['attributes'])))
     fr = []
     frame(broot, aroot, loose, fr)
@@ -351,7 +378,15 @@ def sites():
             for k in G.KIND_ORDER:
                 if G.kind_ok(c, site, k):
                     out.append((c, layout, site, k))
+    # annotations on the length parameter of an in / out / inout array, declared after (2) and before (3) it
+    for c in LEN_CALLABLES:
+        for layout in (2, 3):
+            for k in G.LEN_KINDS:
+                out.append((c, layout, 'p', k))
     return out
+
+
+LEN_CALLABLES = ('function', 'method', 'callback', 'vfunc')
 
 
 def menu_for(site):
@@ -364,6 +399,15 @@ TRIPLE_CALLABLES = ('function', 'method', 'callback', 'signal')
 
 def ann_sets(tier, callable_, layout, site):
     """Deterministic list of annotation lists for one site (simplest first)."""
+    if layout >= 2:
+        out = []
+        for arr in [[]] + G.LEN_ARRAYS:
+            if arr:
+                out.append(list(arr))
+            for a in G.LEN_ANNS:
+                out.append(arr + [a])
+            out.append(arr + ['@n optional', '@n nullable'])
+        return out
     menu = list(menu_for(site))
     if site == 'p' and callable_ in ('method', 'vfunc', 'vfunc_inv'):
         menu.append('array length=self')
@@ -394,6 +438,10 @@ def ann_sets(tier, callable_, layout, site):
             for j in range(i + 1, len(fam)):
                 if _key(fam[i]) != _key(fam[j]):
                     out.append([fam[i], fam[j]])
+        # (type T) overrides that change the kind of the value x the annotations whose validity depends on it
+        for t in ['type FooRec', 'type GLib.List(utf8)', 'type GObject.Object', 'type gint']:
+            for x in G.TRANSFER + ['out', 'nullable', 'allow-none']:
+                out.append([x, t])              # menu order, as in the thorough tier
     return out
 
 
@@ -488,7 +536,13 @@ def _work(chunk):
                 if m != anns:
                     v = next(x for x in rules_of(m)['viol'] if _sig(x) == sig)
                 mcase = dict(case, anns=m)
-                myviol.append((vkey(sig[0], m, c, sig[1]), v[1], mcase))
+                km = list(m)
+                if any(a.startswith('@n ') for a in m):
+                    # key of the length-parameter family: position of n relative to the array; the array's
+                    # own direction annotation only matters as "out or inout"
+                    pos = '@n-after ' if layout == 2 else '@n-before '
+                    km = ['out/inout' if G.ann_name(a) in ('out', 'inout') else a.replace('@n ', pos) for a in m]
+                myviol.append((vkey(sig[0], km, c, sig[1]), v[1], mcase))
             if i == (len(kind) * 7 + layout * 3) % len(sets) and len(part.samples) < 12:
                 part.sample({'case': case, 'c': G.c_text(case)})
     r = part.result()
@@ -501,6 +555,7 @@ def run(ctx):
     tier = ctx.tier
     S = sites()
     nsets = {'%s/%s%d' % (c, st, l): len(ann_sets(tier, c, l, st)) for c in G.CALLABLES for (l, st) in G.site_positions(c)}
+    nsets['length-parameter family (layouts 2,3)'] = len(ann_sets(tier, 'function', 2, 'p'))
     ctx.set(rule='E1 generation tree: every (callable kind x site position x type kind) site of the alphabet, '
                  'every single annotation instance of the menu; quick adds every pair inside the interacting '
                  'families, thorough adds every unordered pair of the whole menu and the interacting triples. '
